@@ -22,8 +22,8 @@ const relLzma = "lib/litonlylzma"
 
 func init() {
 	register("C17", core.Spec{
-		Decides:    "for lib/litonlylzma: (M1) prob.encodeBit and prob.decodeBit carry the same range-coder model — threshold expression, probability and width update in the 0-arm and 1-arm, renormalisation test and shift — term by term, and each equals the LZMA form with probBits=11, adaptation shift 5, top value 1<<24, shift 8 (K1); (M2) encodeByte/decodeByte walk the same bit-tree recurrence (index from 1, index=index<<1|bit, slot probs[index], 8 steps, MSB first); (M3) encodeUvarint/decodeUvarint agree on 7-bit groups, the 0x80 continuation bit, LSB-first order, decoder limit 9 bytes; (M4) encodeRaw/decodeRaw use the same lc/lp/pb context expressions, array sizes, initial probability 1024, initial width 0xFFFFFFFF and 5-byte flush/prime; (K2–K4) the LZMA 13-byte header (0x5D = (pb*5+lp)*9+lc, dictionary bytes, 8-byte LE size), the XZ stream header (magic, flags, both header CRC-32s recomputed from the constant's own bytes), chunk control bytes and size fields, footer layout (CRC range, backward size, flags copy, 'YZ'), exclusive use of hash/crc32.ChecksumIEEE with little-endian serialisation, and 4-byte zero padding are the same constants in encoder and decoder; (G) every constant-offset index/slice of a byte slice in the functions reachable from FileFormat.Decode is dominated by len() tests that imply it is in range",
-		NotDecided: "lossless round trip, acceptance by xz / the Wuffs decoders, and the output-size bound are value-level and NOT decided; neither are rangeEncoder.shiftLow's carry chain, the compressed-vs-raw chunk choice, the index record/backward-size/unpadded-size arithmetic, variable-offset slice accesses (listed as INFO, not claimed), encodeUvarint's behaviour for x >= 1<<63, or integer-conversion truncation. These are necessary structural conditions of the property, not a proof of it",
+		Decides:    "for lib/litonlylzma: (M1) prob.encodeBit and prob.decodeBit carry the same range-coder model — threshold expression, probability and width update in the 0-arm and 1-arm, renormalisation test and shift — term by term, and each equals the LZMA form with probBits=11, adaptation shift 5, top value 1<<24, shift 8 (K1); (M2) encodeByte/decodeByte walk the same bit-tree recurrence (index from 1, index=index<<1|bit, slot probs[index], 8 steps, MSB first); (M3) encodeUvarint/decodeUvarint agree on 7-bit groups, the 0x80 continuation bit, LSB-first order, decoder limit 9 bytes; (M4) encodeRaw/decodeRaw use the same lc/lp/pb context expressions, array sizes, initial probability 1024, initial width 0xFFFFFFFF and 5-byte flush/prime; (K2–K4) the LZMA 13-byte header (0x5D = (pb*5+lp)*9+lc, dictionary bytes, 8-byte LE size), the XZ stream header (magic, flags, both header CRC-32s recomputed from the constant's own bytes), chunk control bytes and size fields, footer layout (CRC range, backward size, flags copy, 'YZ'), exclusive use of hash/crc32.ChecksumIEEE with little-endian serialisation, and 4-byte zero padding are the same constants in encoder and decoder; (K5.carry) rangeEncoder.shiftLow partitions the 33-bit low at exactly 0xFF00_0000 and 2^32 (decided on the sets of values its comparisons accept) and each part has the effect the carry arithmetic demands: emit head / head+1 and the pending run as 0xFF / 0x00, new head = bits [24,32), pending count 0 or +1, low' = (low mod 2^24) << 8, and nothing else writes that state; (K3.split, K3.choice) encodeXz's chunk loop consumes src front to back in chunks of 1..2^16 bytes, the LZMA payload is encodeRaw of the current chunk, and the compressed-vs-stored comparison selects the LZMA arm only when len(payload) fits the 16-bit size-1 field; (G) every constant-offset index/slice of a byte slice in the functions reachable from FileFormat.Decode is dominated by len() tests that imply it is in range",
+		NotDecided: "lossless round trip, acceptance by xz / the Wuffs decoders, and the output-size bound are value-level and NOT decided; neither are the range coder's global invariant that a carry never reaches an already emitted byte (low + width <= 2^32 + …, a value argument), that the comparison picks the *smaller* encoding (INFO only), a lower bound on len(payload), the index record/backward-size/unpadded-size arithmetic, variable-offset slice accesses (listed as INFO, not claimed), encodeUvarint's behaviour for x >= 1<<63, or integer-conversion truncation. These are necessary structural conditions of the property, not a proof of it",
 		Assumptions: []string{"go/types, go/cfg (x/tools v0.29.0) model Go faithfully",
 			"twins are compared after normalisation: constants by value, operands by resolved object/field role, commutative operands sorted, compound assignments expanded, straight-line arms executed symbolically",
 			"a function whose shape the extractor does not recognise fails as undecided",
@@ -44,6 +44,8 @@ func runC17(c *core.Ctx) {
 	r.uvarintTwins()
 	r.rawTwins()
 	r.formatConsts()
+	r.carry()       // K5.carry.*  (c17_carry.go)
+	r.chunkChoice() // K3.split.*, K3.choice.* (c17_choice.go)
 	r.guards()
 }
 
